@@ -154,7 +154,7 @@ def run_scenarios(scs):
     for i, ch in enumerate(chunks):
         p = os.path.join(wd, "chunk%d.json" % i)
         json.dump(ch, open(p, "w"))
-        env = dict(os.environ, PYTHONPATH=VERIF, PYTHONHASHSEED="0")
+        env = dict(os.environ, PYTHONPATH=core.pythonpath(), PYTHONHASHSEED="0")
         procs.append(subprocess.Popen([PY, "-m", "harness.mp_driver", p, wd], cwd=VERIF, env=env,
                                       stdin=subprocess.DEVNULL, stdout=subprocess.PIPE, stderr=subprocess.STDOUT, text=True))
     for p in procs:
